@@ -137,49 +137,71 @@ def decode_utf8_at(ex, buf, pos, end):
     return I(z3.simplify(((z(b0) & 0x07) << 18) | (cont(1) << 12) | (cont(2) << 6) | cont(3)), False, 'char'), 4
 
 
-def utf8_valid(ex, b):
-    """walks the bytes like core::str::from_utf8; returns True / False (forks on byte classes)"""
-    i = 0
+def utf8_scan(ex, b):
+    """core::str::lossy::Utf8Chunks over symbolic bytes of concrete length: returns a list of ('ok', [bytes]) / ('bad', k)
+    segments exactly as the standard library delimits them (maximal valid runs; each ill-formed sequence is the maximal
+    prefix of a well-formed one, 1..3 bytes). Forks on the byte classes."""
     n = len(b)
     rng = lambda x, lo, hi: z3.And(z3.UGE(x, lo), z3.ULE(x, hi))
+    segs = []
+    cur = []
+    i = 0
     while i < n:
         b0 = b[i]
         if ex.decide(z3.ULT(b0, 0x80)):
+            cur.append(b0)
             i += 1
             continue
-        def need(k, lo=0x80, hi=0xBF):
-            return i + k < n and ex.decide(rng(b[i + k], lo, hi))
+        j = i + 1
+        good = False
+
+        def nxt(lo, hi):
+            return j < n and ex.decide(rng(b[j], lo, hi))
         if ex.decide(rng(b0, 0xC2, 0xDF)):
-            if not need(1):
-                return False
-            i += 2
-        elif ex.decide(b0 == 0xE0):
-            if not (need(1, 0xA0, 0xBF) and need(2)):
-                return False
-            i += 3
-        elif ex.decide(z3.Or(rng(b0, 0xE1, 0xEC), rng(b0, 0xEE, 0xEF))):
-            if not (need(1) and need(2)):
-                return False
-            i += 3
-        elif ex.decide(b0 == 0xED):
-            if not (need(1, 0x80, 0x9F) and need(2)):
-                return False
-            i += 3
-        elif ex.decide(b0 == 0xF0):
-            if not (need(1, 0x90, 0xBF) and need(2) and need(3)):
-                return False
-            i += 4
-        elif ex.decide(rng(b0, 0xF1, 0xF3)):
-            if not (need(1) and need(2) and need(3)):
-                return False
-            i += 4
-        elif ex.decide(b0 == 0xF4):
-            if not (need(1, 0x80, 0x8F) and need(2) and need(3)):
-                return False
-            i += 4
+            if nxt(0x80, 0xBF):
+                j += 1
+                good = True
+        elif ex.decide(rng(b0, 0xE0, 0xEF)):
+            if ex.decide(b0 == 0xE0):
+                lo, hi = 0xA0, 0xBF
+            elif ex.decide(b0 == 0xED):
+                lo, hi = 0x80, 0x9F
+            else:
+                lo, hi = 0x80, 0xBF
+            if nxt(lo, hi):
+                j += 1
+                if nxt(0x80, 0xBF):
+                    j += 1
+                    good = True
+        elif ex.decide(rng(b0, 0xF0, 0xF4)):
+            if ex.decide(b0 == 0xF0):
+                lo, hi = 0x90, 0xBF
+            elif ex.decide(b0 == 0xF4):
+                lo, hi = 0x80, 0x8F
+            else:
+                lo, hi = 0x80, 0xBF
+            if nxt(lo, hi):
+                j += 1
+                if nxt(0x80, 0xBF):
+                    j += 1
+                    if nxt(0x80, 0xBF):
+                        j += 1
+                        good = True
+        if good:
+            cur.extend(b[i:j])
         else:
-            return False
-    return True
+            if cur:
+                segs.append(('ok', cur))
+                cur = []
+            segs.append(('bad', j - i))
+        i = j
+    if cur:
+        segs.append(('ok', cur))
+    return segs
+
+
+def utf8_valid(ex, b):
+    return all(k == 'ok' for k, _ in utf8_scan(ex, b))
 
 
 def digit_value(b, radix):
@@ -298,6 +320,8 @@ class Models:
         A(r'^core::str::<impl str>::starts_with::<&str>$', self.m_starts_with)
         A(r'^core::str::<impl str>::strip_prefix::<&str>$', self.m_strip_prefix)
         A(r'^core::str::<impl str>::strip_prefix::<char>$', self.m_strip_prefix)
+        A(r'^core::str::<impl str>::bytes$', lambda ex, c, a: Iter('bytes', to_slice(ex, a[0]), 0))
+        A(r'^<std::str::Bytes<\'_> as Iterator>::(all|any)::<', self.m_bytes_all_any)
         A(r'^core::str::<impl str>::chars$', lambda ex, c, a: Iter('chars', to_slice(ex, a[0]), 0))
         A(r'^<.* as IntoIterator>::into_iter$', lambda ex, c, a: a[0])
         A(r'^<Chars<\'_> as Iterator>::next$', self.m_chars_next)
@@ -545,6 +569,20 @@ class Models:
                 return True
         return False
 
+    def m_bytes_all_any(self, ex, c, a):
+        it = ex.deref(a[0])
+        sl = it.slice
+        is_all = '::all::<' in c
+        while it.pos < sl.len:
+            i = it.pos
+            it.pos += 1
+            r = ex.decide(ex.call_closure(a[1], [I(sl.buf[sl.off + i], False, 'u8')]))
+            if is_all and not r:
+                return False
+            if not is_all and r:
+                return True
+        return is_all
+
     def m_iter_find(self, ex, c, a):
         it = ex.deref(a[0])
         sl = it.slice
@@ -607,11 +645,16 @@ class Models:
 
     def m_from_utf8_lossy(self, ex, c, a):
         b = as_bytes_list(ex, a[0])
-        if utf8_valid(ex, b):
+        segs = utf8_scan(ex, b)
+        if all(k == 'ok' for k, _ in segs):
             return Agg('Cow', 'Borrowed', [Slice(b, 0, len(b), True)])
-        # replacement text: only ever copied into diagnostics; represented by input-determined opaque bytes
-        h = sym_hash(b)
-        return Agg('Cow', 'Owned', [Str([z3.BitVec(f'lossy_{h}_{i}', 8) for i in range(len(b))])])
+        out = []
+        for k, v in segs:
+            if k == 'ok':
+                out.extend(v)
+            else:
+                out.extend([bv(0xEF, 8), bv(0xBF, 8), bv(0xBD, 8)])      # U+FFFD per ill-formed sequence
+        return Agg('Cow', 'Owned', [Str(out)])
 
     def m_parse_f64(self, ex, c, a):
         b = as_bytes_list(ex, a[0])
